@@ -146,7 +146,11 @@ func (packages CombinedPackage) LookupFunc(f LookupFunc) error {
 		return err
 	}
 	for _, pkg := range packages {
-		_ = pkg.LookupFunc(w)
+		// If f has not returned an error, the error returned by
+		// pkg.LookupFunc, if any, is an error of the package.
+		if e := pkg.LookupFunc(w); err == nil {
+			err = e
+		}
 		if err != nil {
 			break
 		}
